@@ -35,7 +35,7 @@ Room == Len(hist) < MaxOps
 
 Prepare == /\ Room
            /\ cache' = [has |-> TRUE, idx |-> wit.idx]        \* new builder at wit.idx, or cached one refreshed up to wit.idx
-           /\ Log([op |-> "prepare", ok |-> TRUE, idx |-> wit.idx]) /\ UNCHANGED <<acc, accT, wit>>
+           /\ Log([op |-> "prepare", ok |-> TRUE, idx |-> wit.idx, refreshed |-> (cache.has /\ cache.idx < wit.idx)]) /\ UNCHANGED <<acc, accT, wit>>
 RevokeOther == Room /\ acc' = acc + 1 /\ accT' = accT + 1 /\ Log([op |-> "revokeother", ok |-> TRUE, idx |-> acc + 1]) /\ UNCHANGED <<wit, cache>>
 Resign == Room /\ accT' = accT + 1 /\ Log([op |-> "resign", ok |-> TRUE, idx |-> acc]) /\ UNCHANGED <<acc, wit, cache>>
 RevokeSelf == /\ Room /\ wit.revAt = 0 /\ acc' = acc + 1 /\ accT' = accT + 1 /\ wit' = [wit EXCEPT !.revAt = acc + 1]
